@@ -41,6 +41,10 @@ type sched struct {
 	gs    []*goroutine
 	cur   *goroutine
 	mode  int
+	// preemption bounding (explore mode): a switch away from a goroutine that could have
+	// continued is a preemption; at most maxPreempt of them happen on one path
+	preempts   int
+	maxPreempt int
 	hosts sync.WaitGroup // host goroutines of this path
 	done  chan struct{}  // closed by the goroutine that ends the path
 	once  sync.Once
@@ -87,7 +91,7 @@ type schan struct {
 }
 
 func newSched(i *interpreter, mode int) *sched {
-	return &sched{i: i, mode: mode, done: make(chan struct{}), wgs: map[*value]*wgState{}, mus: map[*value]*muState{}, onces: map[*value]*onceState{}}
+	return &sched{i: i, mode: mode, maxPreempt: i.opts.MaxPreempt, done: make(chan struct{}), wgs: map[*value]*wgState{}, mus: map[*value]*muState{}, onces: map[*value]*onceState{}}
 }
 
 // spawn creates an interpreted goroutine running f; it does not start running until scheduled.
@@ -226,12 +230,26 @@ func (s *sched) yield() {
 		return
 	}
 	g := s.cur
-	next := s.pick(g)
-	if next == nil || next == g {
+	if s.preempts >= s.maxPreempt {
 		return
 	}
+	// choice 0 = carry on; the others preempt the current goroutine
+	var others []*goroutine
+	for _, o := range s.gs {
+		if o != g && (o.state == gRunnable || o.state == gRunning) {
+			others = append(others, o)
+		}
+	}
+	if len(others) == 0 {
+		return
+	}
+	k := s.i.path.choose("sched", len(others)+1)
+	if k == 0 {
+		return
+	}
+	s.preempts++
 	g.state = gRunnable
-	s.handTo(next)
+	s.handTo(others[k-1])
 	s.parkSelf(g)
 }
 
@@ -580,4 +598,31 @@ func (s *sched) muUnlock(key *value, read bool) {
 		s.ready(g)
 	}
 	m.waiters = nil
+}
+
+// quiesce lets every other goroutine run until none of them is runnable any more; the caller
+// keeps the baton afterwards. Used by harnesses to look for leaked goroutines.
+func (s *sched) quiesce() {
+	g := s.cur
+	for {
+		var others []*goroutine
+		for _, o := range s.gs {
+			if o != g && (o.state == gRunnable || o.state == gRunning) {
+				others = append(others, o)
+			}
+		}
+		if len(others) == 0 {
+			return
+		}
+		next := others[0]
+		switch s.mode {
+		case SchedHigh:
+			next = others[len(others)-1]
+		case SchedExplore:
+			next = others[s.i.path.choose("sched", len(others))]
+		}
+		g.state = gRunnable
+		s.handTo(next)
+		s.parkSelf(g)
+	}
 }
